@@ -652,6 +652,24 @@ pub fn gen_session_scenario(g: &str) -> Scenario {
     }
 }
 
+/// The same generated programs with statement caching on (transaction mode): what the pooler may answer
+/// itself is bounded (Parse / Close of statements); everything else must be relayed.
+pub fn gen_cached_scenario(g: &str) -> Scenario {
+    let mut pool = PoolCfg::simple("db", "transaction", 1, 1, 0);
+    pool.extra = "prepared_statements_cache_size = 8\n".to_string();
+    let cfg = Cfg::one(pool);
+    let servers = cfg.servers();
+    Scenario {
+        name: format!("C03 ref prog=gen-cached cache=8 gate=Off id={}", g),
+        toml: cfg.toml(),
+        alt_tomls: vec![],
+        servers,
+        actors: vec![super::c08::program(0, g).actor()],
+        opts: Opts::default(),
+        meta: serde_json::Value::Null,
+    }
+}
+
 /// Compare what client `c` received after login with the direct-connection reference.
 /// `caching`: ParseComplete/CloseComplete may be synthesised (and reordered within a batch).
 pub fn compare_with_reference(log: &[crate::mockpg::Entry], c: usize, caching: bool, oracle: &str, ctx: &str) -> Vec<Violation> {
@@ -715,6 +733,63 @@ pub fn ref_oracle(sc: &Scenario, out: &Outcome) -> Vec<Violation> {
         return vec![v("C03.ref-blocked", format!("C03.ref-blocked:{}", ctx), format!("client never got its reply: {}", blocked_note(log).unwrap_or_default()))];
     }
     let mut vs = compare_with_reference(log, 0, caching, "C03.ref", &ctx);
+    if caching && !out.blocked {
+        // with statement caching only Parse and Close of *statements* may be answered by the pooler: every
+        // Bind, Execute and every Describe / Close of a *portal* must reach the server, in order
+        let portal_ops = |msgs: Vec<Msg>| -> Vec<(u8, String)> {
+            let mut v = Vec::new();
+            for m in msgs {
+                match m.code {
+                    b'B' => {
+                        if let Some((portal, _, _)) = wire::decode_bind(&m) {
+                            v.push((b'B', portal));
+                        }
+                    }
+                    b'E' => {
+                        if let Some((portal, _)) = m.cstr_at(0) {
+                            v.push((b'E', portal));
+                        }
+                    }
+                    b'D' | b'C' => {
+                        if let Some((kind, name)) = wire::decode_kind_name(&m) {
+                            if kind == b'P' {
+                                v.push((m.code, name));
+                            }
+                        }
+                    }
+                    _ => {}
+                }
+            }
+            v
+        };
+        let sent = portal_ops(client_sent_msgs(log, 0));
+        let recv = portal_ops(
+            log.iter()
+                .filter_map(|e| match &e.rec {
+                    Rec::BRecv { msg, .. } => Some(msg.clone()),
+                    _ => None,
+                })
+                .collect(),
+        );
+        // (a batch the server rejected half-way may leave later messages unsent: compared only when the reference has no error)
+        let sent_msgs: Vec<Msg> = client_sent_msgs(log, 0);
+        let ref_has_error = reference_replies(&sent_msgs, "pgcat").iter().any(|m| m.code == b'E');
+        if !ref_has_error && sent != recv {
+            let p = sent.iter().zip(recv.iter()).position(|(a, b)| a != b).unwrap_or(sent.len().min(recv.len()));
+            vs.push(v(
+                "C03.ref-server-bytes",
+                format!("C03.ref-server-bytes:portal-ops:{}", ctx),
+                format!(
+                    "client sent {} Bind/Execute/portal Describe/portal Close messages, the server received {}; first difference at {}: sent {:?} received {:?}",
+                    sent.len(),
+                    recv.len(),
+                    p,
+                    sent.get(p).map(|(c, n)| format!("{}({})", *c as char, n)),
+                    recv.get(p).map(|(c, n)| format!("{}({})", *c as char, n))
+                ),
+            ));
+        }
+    }
     // backend side: with caching off the server receives exactly the client's messages
     if !caching {
         // an empty batch (a Sync with nothing before it) is answered by the pooler itself and has no
@@ -797,6 +872,7 @@ pub fn build(tier: &str) -> SimCheck {
     }
     for g in super::c08::gen_programs(if thorough { 3 } else { 2 }) {
         scenarios.push(gen_session_scenario(&g));
+        scenarios.push(gen_cached_scenario(&g));
     }
     for prog in REF_PROGRAMS {
         for cache in [0usize, 8] {
@@ -816,7 +892,7 @@ pub fn build(tier: &str) -> SimCheck {
         oracle: Box::new(oracle),
         bound: 0,
         limits: Limits { max_wall_s: if thorough { 1500.0 } else { 50.0 }, ..Default::default() },
-        rule: "raw: reply stream catalogue (row sizes around the 8196-byte thresholds, empty/multi-statement, Notice/ParameterStatus, mid-stream error, COPY out/in/fail with chunk sizes around 8196, every kind of message (notice, error, parameter status, wide row description) carrying the buffer across the threshold before / between / after rows, COPY in with every sequence of <= 3 (thorough 4) client chunks over 6 sizes below/at/above the threshold, SELECT+COPY in one Query, portal suspension, in-transaction status) x every single cut of the server stream at message boundaries +-0..5 bytes and at the thresholds x client-request cuts; ref: 13 request shapes (simple, extended, named, pipelined, bare Sync then batch, Sync Sync, Describe, Close+re-Parse, Flush, big, COPY, error in batch) x caching on/off x gating, compared with the direct-connection reference; gen-session: every generated extended-protocol batch program of C08 (<= 2, thorough 3 items) in session mode without statement caching, replies and server-received messages compared with the client's; distinct = distinct histories".into(),
+        rule: "raw: reply stream catalogue (row sizes around the 8196-byte thresholds, empty/multi-statement, Notice/ParameterStatus, mid-stream error, COPY out/in/fail with chunk sizes around 8196, every kind of message (notice, error, parameter status, wide row description) carrying the buffer across the threshold before / between / after rows, COPY in with every sequence of <= 3 (thorough 4) client chunks over 6 sizes below/at/above the threshold, SELECT+COPY in one Query, portal suspension, in-transaction status) x every single cut of the server stream at message boundaries +-0..5 bytes and at the thresholds x client-request cuts; ref: 13 request shapes (simple, extended, named, pipelined, bare Sync then batch, Sync Sync, Describe, Close+re-Parse, Flush, big, COPY, error in batch) x caching on/off x gating, compared with the direct-connection reference; gen-session: every generated extended-protocol batch program of C08 (<= 2, thorough 3 items) in session mode without statement caching, replies and server-received messages compared with the client's, and once more with statement caching on (every Bind / Execute / portal Describe / portal Close must reach the server); distinct = distinct histories".into(),
         assumptions: vec![
             "TLS framing not exercised (generic Client<S,T> relay code is the same)".into(),
             "reference backend run without a pooler defines the direct-connection reply".into(),
